@@ -227,6 +227,77 @@ Theorem C20_calculate_order_flag : forall (A : Type) (calc : system -> option A)
 Proof. exact @calculate_order_flag. Qed.
 Print Assumptions C20_calculate_order_flag.
 
+(* calculate_order obtains the phase point either from the arrays handed in (all of xyz,
+   vel, box given) or, as soon as one of them is missing, from the configuration file the
+   system references ([conf] = what the engine's _read_configuration returns, [box0] = what
+   system.box held and keeps when the file has no box).  On BOTH routes the vel_rev flag is
+   applied; the routes agree on the same phase point *)
+Theorem C20_calculate_order_file_route :
+  forall (A : Type) (calc : system -> option A) r conf box0 xyz vel box,
+  any_missing xyz vel box = true ->
+  calculate_order_args calc r conf box0 xyz vel box =
+  calculate_order calc r (spos conf) (svel conf) (file_box conf box0).
+Proof. exact @calculate_order_file_route. Qed.
+Print Assumptions C20_calculate_order_file_route.
+
+Theorem C20_calculate_order_routes_agree :
+  forall (A : Type) (calc : system -> option A) r x v b box0 xyz vel box,
+  any_missing xyz vel box = true ->
+  calculate_order_args calc r (Sys x v (Some b)) box0 xyz vel box =
+  calculate_order_args calc r (Sys x v (Some b)) box0 (Some x) (Some v) (Some b).
+Proof. exact @calculate_order_routes_agree. Qed.
+Print Assumptions C20_calculate_order_routes_agree.
+
+Theorem C20_calculate_order_file_flag :
+  forall (A : Type) (calc : system -> option A) conf box0 xyz vel box,
+  any_missing xyz vel box = true ->
+  calculate_order_args calc true conf box0 xyz vel box =
+    calc (reverse_vel (Sys (spos conf) (svel conf) (file_box conf box0))) /\
+  calculate_order_args calc false conf box0 xyz vel box =
+    calc (Sys (spos conf) (svel conf) (file_box conf box0)).
+Proof. exact @calculate_order_file_flag. Qed.
+Print Assumptions C20_calculate_order_file_flag.
+
+(* whichever route: the flag flips the sign of Velocity and Distancevel ... *)
+Theorem C20_velocity_sign_calculate_order_velocity : forall i dim conf box0 xyz vel box,
+  calculate_order_args (velocity_calc i dim) true conf box0 xyz vel box =
+  option_map Z.opp (calculate_order_args (velocity_calc i dim) false conf box0 xyz vel box).
+Proof. exact calculate_order_args_velocity. Qed.
+Print Assumptions C20_velocity_sign_calculate_order_velocity.
+
+Theorem C20_velocity_sign_calculate_order_distancevel : forall fx i0 i1 per conf box0 xyz vel box,
+  calculate_order_args (distancevel_calc fx i0 i1 per) true conf box0 xyz vel box =
+  option_map (dv_scale (-1) 1) (calculate_order_args (distancevel_calc fx i0 i1 per) false conf box0 xyz vel box).
+Proof. exact calculate_order_args_distancevel. Qed.
+Print Assumptions C20_velocity_sign_calculate_order_distancevel.
+
+(* ... and leaves the position-type parameters alone *)
+Theorem C20_velocity_sign_calculate_order_position_type : forall conf box0 xyz vel box,
+  (forall i dim, calculate_order_args (position_calc i dim) true conf box0 xyz vel box =
+                 calculate_order_args (position_calc i dim) false conf box0 xyz vel box) /\
+  (forall i0 i1 per, calculate_order_args (distance_calc i0 i1 per) true conf box0 xyz vel box =
+                     calculate_order_args (distance_calc i0 i1 per) false conf box0 xyz vel box) /\
+  (forall i0 i1 i2 i3 per, calculate_order_args (dihedral_calc i0 i1 i2 i3 per) true conf box0 xyz vel box =
+                           calculate_order_args (dihedral_calc i0 i1 i2 i3 per) false conf box0 xyz vel box) /\
+  (forall idx per, calculate_order_args (puckering_calc idx per) true conf box0 xyz vel box =
+                   calculate_order_args (puckering_calc idx per) false conf box0 xyz vel box).
+Proof. exact calculate_order_args_position_type. Qed.
+Print Assumptions C20_velocity_sign_calculate_order_position_type.
+
+(* non-vacuity: a phase point read from its file (no override, and positions + velocities
+   handed in without a box, which also goes to the file), with a non-zero velocity-type value *)
+Example C20_example_calculate_order_routes :
+  let conf := Sys [V3 4 1 0; V3 0 0 0] [V3 1 0 0; V3 0 2 0] (Some [16; 16; 16]) in
+  any_missing None None None = true /\ any_missing (Some []) (Some []) None = true /\
+  calculate_order_args (velocity_calc 1 1) false conf None None None None = Some 2 /\
+  calculate_order_args (velocity_calc 1 1) true conf None None None None = Some (-2) /\
+  calculate_order_args (velocity_calc 1 1) true conf None (Some []) (Some []) None = Some (-2) /\
+  calculate_order_args (velocity_calc 1 1) true conf None (Some (spos conf)) (Some (svel conf)) (sbox conf) = Some (-2) /\
+  calculate_order_args (distancevel_calc true 0 1 true) false conf None None None None = Some (2, 17) /\
+  calculate_order_args (distancevel_calc true 0 1 true) true conf None None None None = Some (-2, 17) /\
+  calculate_order_args (distance_calc 0 1 true) true conf None None None None = Some 17.
+Proof. vm_compute. repeat split. Qed.
+
 (* ------------------------------------------------------------------ box forms
    any box list gives what its first three entries give: the 9-component form
    (lengths, then off-diagonal elements) equals the 3-component form *)
